@@ -9,6 +9,9 @@ use byteorder::BigEndian;
 use std::collections::HashMap;
 use std::net::SocketAddr;
 
+/// Maximum size of a reply datagram.
+const PACKET_SIZE: usize = u16::MAX as usize;
+
 struct GameSpy2 {
     socket: UdpSocket,
     retry_count: usize,
@@ -100,7 +103,8 @@ impl GameSpy2 {
         self.socket
             .send(&[0xFE, 0xFD, 0x00, 0x00, 0x00, 0x00, 0x01, 0xFF, 0xFF, 0xFF])?;
 
-        let received = self.socket.receive(None)?;
+        // The whole reply comes in one datagram, with many players it is larger than the default packet size
+        let received = self.socket.receive(Some(PACKET_SIZE))?;
 
         let mut buf = Buffer::<BigEndian>::new(&received);
         if buf.read::<u8>()? != 0 || buf.read::<u32>()? != 1 {
